@@ -58,13 +58,14 @@ def resolve(kw, inst):
     return list(inst)
 
 
-def strip_x(T):
+def strip_x(T, selected=()):
+    """the transcript without what the recorded finding covers: the annotations x:1 declares on base forms are
+    removed when x:1 is not part of the selection (they leak in, or survive its removal), and only their
+    repetitions are collapsed when it is (they double on re-adding it). Anything else - the same texts on another
+    form, a missing annotation of a selected extension - stays visible."""
     import copy
     T = copy.deepcopy(T)
-    for w in T['words'].values():
-        for f in w['forms']:
-            f[3] = [t for t in f[3] if not str(t[0]).startswith('xtagtext')]
-            f[4] = [p for p in f[4] if not str(p[0]).startswith('xprontext')]
+    universe.strip_annotations(T['words'], dedupe='x:1' in selected)
     return T
 
 
@@ -159,7 +160,8 @@ class Sys04(c05.Sys05):
                                                 forms=universe.FORMS)
                 g, x = normalize_unordered(T, unordered), normalize_unordered(exp, unordered)
                 if self.annot:
-                    g2, x2 = strip_x(g), strip_x(x)
+                    sel_x = st.family('a:1') if default_mode else S
+                    g2, x2 = strip_x(g, sel_x), strip_x(x, sel_x)
                     if g != x and g2 == x2:
                         V.append((K_ANNOT, f'after {hist}: Wordnet({kw}) shows tags/pronunciations that an '
                                   f'unselected extension attached to a form of the selection'))
@@ -173,7 +175,8 @@ class Sys04(c05.Sys05):
             for lx in T['lexicons'].values():
                 lx.pop('extensions', None)
                 lx.pop('requires', None)
-            data[name] = [S, exp_ids, runner.digest(T), runner.digest(strip_x(T)) if self.annot else None]
+            data[name] = [S, exp_ids, runner.digest(T),
+                          runner.digest(strip_x(T, st.family('a:1') if default_mode and 'a:1' in inst else S)) if self.annot else None]
         return V, data
 
 
